@@ -93,7 +93,9 @@ def run(case):
 
         mn, vr = node_md(out, "mn"), node_md(out, "vr")
         if method == "maximization":
-            if np.any(~np.isnan(mn)) or np.any(~np.isnan(vr)) or np.any(~np.isnan(mut_md(out, "mn"))):
+            # "writes no time metadata": whatever the input carried is left exactly as it was
+            ti, to = ts.tables, out.tables
+            if not (np.array_equal(ti.nodes.metadata, to.nodes.metadata) and np.array_equal(ti.mutations.metadata, to.mutations.metadata)):
                 bad("maximization_wrote_time_metadata", "")
             if out.table_metadata_schemas.node != ts.table_metadata_schemas.node or out.table_metadata_schemas.mutation != ts.table_metadata_schemas.mutation:
                 bad("maximization_changed_schema", "")
